@@ -1,6 +1,6 @@
 """C07 — resharing keeps the chain's identity and continuity (PARTIAL: DESIGN.md §3 C07, §6)."""
 import glob, json, os
-from .. import core, dkgrun as D
+from .. import core, netreshare, dkgrun as D
 
 ID = "C07"
 MODULE = "DrandProofs.C07"
@@ -124,6 +124,12 @@ MAX_REPORTS = 3
 def explore(ctx, res):
     res.level = "proof"
     tier = "thorough" if ctx["deep"] else ctx["tier"]
+    if ctx.get("replay") and json.load(open(ctx["replay"])).get("engine") == "net":
+        cov, _ = netreshare.replay_part(ctx, res, json.load(open(ctx["replay"])))
+        res.cov.update(evaluations=sum(cov["ops"].values()), rule="replay of one reshare script of engine net", distribution={"net_reshare": cov})
+        return
+    # what the beacon nodes do around the transition (engine `net`: real Handlers, kyber-made resharing)
+    ncov, nres = netreshare.explore_part(ID, ctx, res)
     corpus = []
     for f in sorted(glob.glob(os.path.join(core.VERIF, "corpus", "C07", "*.json"))):
         corpus.append(("corpus:" + os.path.basename(f), json.load(open(f))["ops"]))
@@ -143,8 +149,9 @@ def explore(ctx, res):
     dist = acc["dist"]
     if dist["reshares_attempted"] and dist["reshares_completed"] == 0:
         raise core.Broken("harness:dkgrun", "no reshare completed on any node: the runs say nothing about the property")
-    res.cov.update(evaluations=acc["evals"], distinct_nontrivial=len(acc["nontriv"]), traces_validated_against_impl=acc["validated"],
-                   samples=acc["samples"], distribution=dist)
+    dist["net_reshare"] = ncov
+    res.cov.update(evaluations=acc["evals"] + sum(ncov["ops"].values()), distinct_nontrivial=len(acc["nontriv"]) + sum(1 for r in nres if r.get("res")),
+                   traces_validated_against_impl=acc["validated"] + ncov["validated_against_model"], samples=acc["samples"], distribution=dist)
     res.cov["rule"] = ("reshare scripts on 3-4 (thorough: 3-6) real dkg.Process instances: same set, +1, -1, replace, threshold up/down, an aborted and a failed reshare in "
                        "between, 2-4 epochs, completion before/after/across a round boundary, and a leader proposing a changed period / scheme; after each reshare the "
                        "identity fields (public key, chain hash, genesis time, seed, period, scheme, id) of every completing node are compared with the previous group, "
@@ -152,6 +159,10 @@ def explore(ctx, res):
                        "validateGroupTransition is applied to single-field perturbations; evaluations = ops run and judged (epochs, hand-overs, transition validations); "
                        "non-trivial = distinct (scheme, shape, size, threshold, epoch) / hand-over traces / validation outcomes; traces_validated = ops whose answers "
                        "the Lean model reproduced")
+    res.cov["rule"] += ("; plus engine `net` (vlib/netreshare.py): real beacon.Handlers across a resharing made with kyber polynomials — threshold raised / lowered, a new group "
+                        "with a hole in its share indices, joiner needed for the new threshold, TransitionNewGroup called early or late (after transition-1 is stored), leavers "
+                        "that keep signing with old shares; oracles: liveness under the group in force, switch point, no old-share / non-member partial let in from the "
+                        "transition on, one public key for the whole chain")
     res.cov["level_note"] = ("partial: share algebra, identity under validateGroupTransition, switch point and admission are proved; agreement on the dealer set under "
                              "all schedules is PedersenSpec, sampled")
 
